@@ -1,4 +1,5 @@
 import OdxVerif.Proofs.CompBits2Msg
+import OdxVerif.Proofs.CompResU16
 /-! Compositional components, extension W22 (1): RESERVED and NRC-CONST parameters INSIDE the nested tier.
 
     `Desc2R` = the descriptions `Desc2` (syntactic mirror of `Described2`, `Proofs/CompBits2Desc.lean`) plus
@@ -9,6 +10,8 @@ import OdxVerif.Proofs.CompBits2Msg
     * `nrcConst o values r` — an NRC-CONST parameter over a standard-length object (response side).  odxtools
       (`parameters/nrcconstparameter.py`): the encoder writes nothing (a supplied value is an EncodeError), moves the cursor;
       the decoder reads the coded value and raises `DecodeMismatch` unless it is one of CODED-VALUES.  `r` = the value read;
+    * `u16le u cps bs` — the tenth leaf kind: a VALUE parameter over a standard-length A_UNICODE2STRING object with low-high byte
+      order (UTF-16LE, `Proofs/CompResU16.lean`);
     * `struct` — STRUCTUREs (with or without BYTE-SIZE) over such parameters, to any depth.
 
     What the decoder returns for a skipped parameter is not determined by the parameter but by whatever the OTHER parameters put
@@ -26,6 +29,7 @@ inductive Desc2R where
   | base (d : Desc2)
   | reserved (n : String) (bp bitp : Option Nat) (bl : Nat) (r : Nat)
   | nrcConst (o : Obj) (values : List IVal) (r : IVal)
+  | u16le (u : U16) (cps : List Nat) (bs : Bytes)
   | struct (name : String) (bp : Option Nat) (bso : Option Nat) (kids : List Desc2R)
 
 mutual
@@ -34,6 +38,7 @@ def Desc2R.mc : Desc2R → MComp
   | .base d => d.mc
   | .reserved n bp bitp bl r => ⟨Comp.reserved n bp bitp bl r, false⟩
   | .nrcConst o values r => ⟨Comp.nrcConst o values r, false⟩
+  | .u16le u cps bs => ⟨Comp.ofU16LE u cps bs, false⟩
   | .struct name bp bso kids =>
     ⟨Comp.ofValue name bp (DComp.structO bso (MComps.cs (Descs2R.mcs kids))), MComps.lastMid (Descs2R.mcs kids)⟩
 def Descs2R.mcs : List Desc2R → List MComp
@@ -52,6 +57,7 @@ def Desc2R.wf : Desc2R → Prop
   | .base d => d.wf
   | .reserved _ _ _ bl _ => 1 ≤ bl ∧ bl ≤ 64
   | .nrcConst o values r => o.ok ∧ values.contains r = true
+  | .u16le u cps bs => u.ok ∧ u.inRange cps bs
   | .struct _ _ bso kids =>
     Descs2R.wf kids ∧ Comps.namesOk (Descs2R.comps kids) ∧ Comps.eopLast (Descs2R.comps kids) ∧ sizeSide bso (Descs2R.comps kids)
 def Descs2R.wf : List Desc2R → Prop
@@ -68,6 +74,7 @@ def Desc2R.resPre : Desc2R → DecState → Prop
     (reservedObj n bp bitp bl).pos d.origin d.cursorByte + (reservedObj n bp bitp bl).k ≤ d.msg.length ∧
       (decStep (reservedObj n bp bitp bl) d).1 = .int r
   | .nrcConst o _ r, d => o.fitsIn d ∧ (decStep o d).1 = r
+  | .u16le _ _ _, _ => True
   | .struct _ bp _ kids, d =>
     Descs2R.resPre kids
       { d with cursorByte := posOf bp d.origin d.cursorByte, origin := posOf bp d.origin d.cursorByte }
@@ -88,6 +95,9 @@ theorem Desc2R.okM : (x : Desc2R) → x.wf → ∀ P, x.mc.c.OkM x.mc.mid P
   | .nrcConst o values r, h, P => by
     simp only [Desc2R.wf] at h
     exact (Comp.nrcConst_ok o values r h.1 h.2).toM _ P
+  | .u16le u cps bs, h, P => by
+    simp only [Desc2R.wf] at h
+    exact (Comp.ofU16LE_ok u cps bs h.1 h.2).toM _ P
   | .struct name bp bso kids, h, P => by
     simp only [Desc2R.wf] at h
     have hok := MComps.okAll_of_forall (fun _ => True) _ (Descs2R.okM kids h.1 (fun _ => True))
@@ -119,6 +129,7 @@ theorem Desc2R.decPre_of : (x : Desc2R) → x.wf → ∀ (d : DecState),
     | true => exact he.of_end d (hend hb)
   | .reserved _ _ _ _ _, _, _, _, hr => hr
   | .nrcConst _ _ _, _, _, _, hr => hr
+  | .u16le _ _ _, _, _, _, _ => trivial
   | .struct name bp bso kids, h, d, hend, hr => by
     simp only [Desc2R.wf] at h
     cases bso with
@@ -172,6 +183,7 @@ theorem Desc2R.okTop (trig : Option Bytes) (x : Desc2R) (h : x.wfTop trig) : x.m
   | base d => exact (Desc2.describedTop trig d h).ok.1
   | reserved n bp bitp bl r => exact Desc2R.okM _ h _
   | nrcConst o values r => exact Desc2R.okM _ h _
+  | u16le u cps bs => exact Desc2R.okM _ h _
   | struct name bp bso kids => exact Desc2R.okM _ h _
 
 theorem Desc2R.decPre_top (trig : Option Bytes) (x : Desc2R) (h : x.wfTop trig) (d : DecState)
@@ -184,6 +196,7 @@ theorem Desc2R.decPre_top (trig : Option Bytes) (x : Desc2R) (h : x.wfTop trig) 
     | true => exact he.of_end d (hend hb)
   | reserved n bp bitp bl r => exact Desc2R.decPre_of _ h d hend hr
   | nrcConst o values r => exact Desc2R.decPre_of _ h d hend hr
+  | u16le u cps bs => exact Desc2R.decPre_of _ h d hend hr
   | struct name bp bso kids => exact Desc2R.decPre_of _ h d hend hr
 
 theorem Descs2R.okAllTop (trig : Option Bytes) : (ds : List Desc2R) → Descs2R.wfTop trig ds →
